@@ -39,6 +39,8 @@ type cmdSpec struct {
 	Interspersed bool       `json:"interspersed"`
 	NoFlagParse  bool       `json:"disableFlagParsing"`
 	Whitelist    bool       `json:"whitelist"` // FParseErrWhitelist.UnknownFlags: the program tolerates unknown flags
+	Group        string     `json:"group"`     // cobra command group the sub-command belongs to ("" = none)
+	Dynamic      bool       `json:"dynamic"`   // the sub-command is added to its parent in the parent's carapace PreRun (completion time), not statically
 	Flags        []flagSpec `json:"flags"`
 	NPos         int        `json:"npos"`
 	PosAny       bool       `json:"posAny"`
@@ -153,6 +155,15 @@ func buildTree(spec treeSpec, rec *runRecord) []*cobra.Command {
 	}
 	for i, cs := range spec.Cmds {
 		if cs.Parent >= 0 {
+			if cs.Group != "" {
+				cmds[i].GroupID = cs.Group
+				if !cmds[cs.Parent].ContainsGroup(cs.Group) {
+					cmds[cs.Parent].AddGroup(&cobra.Group{ID: cs.Group, Title: "Group " + cs.Group})
+				}
+			}
+			if cs.Dynamic && dynamicChildren {
+				continue // linked by the parent's PreRun (registerDynamicChildren)
+			}
 			cmds[cs.Parent].AddCommand(cmds[i])
 		}
 	}
@@ -177,6 +188,31 @@ func buildTree(spec treeSpec, rec *runRecord) []*cobra.Command {
 	}
 	cmds[0].CompletionOptions.DisableDefaultCmd = true
 	return cmds
+}
+
+// dynamicChildren: while set, buildTree leaves the sub-commands marked `dynamic` unlinked; registerDynamicChildren makes
+// the parent's carapace PreRun add them (once) - the way a program adds plugin commands at completion time.
+// The program itself (executeLine) always has them.
+var dynamicChildren bool
+
+func registerDynamicChildren(spec treeSpec, cmds []*cobra.Command) {
+	for p := range spec.Cmds {
+		kids := []*cobra.Command{}
+		for i, cs := range spec.Cmds {
+			if cs.Parent == p && cs.Dynamic {
+				kids = append(kids, cmds[i])
+			}
+		}
+		if len(kids) > 0 {
+			done := false
+			carapace.Gen(cmds[p]).PreRun(func(cmd *cobra.Command, args []string) {
+				if !done {
+					done = true
+					cmd.AddCommand(kids...)
+				}
+			})
+		}
+	}
 }
 
 // cobraSideMarkers: register the markers with cobra's own API (RegisterFlagCompletionFunc,
@@ -300,8 +336,11 @@ type exportDoc struct {
 // completeLine runs the real entry point: `<root> _carapace export <root> words...`
 func completeLine(spec treeSpec, words []string) (doc exportDoc, raw string, perr string) {
 	rec := runRecord{}
+	dynamicChildren = true
 	cmds := buildTree(spec, &rec)
+	dynamicChildren = false
 	registerMarkers(spec, cmds)
+	registerDynamicChildren(spec, cmds)
 	root := cmds[0]
 	var out bytes.Buffer
 	root.SetOut(&out)
@@ -413,6 +452,10 @@ func genTree(r *rng) treeSpec {
 			c.Hidden = r.chance(10)
 			c.Deprecated = r.chance(8)
 			c.NoFlagParse = r.chance(6)
+			if r.chance(15) {
+				c.Group = pick(r, []string{"g1", "g2", "Main Commands"})
+			}
+			c.Dynamic = r.chance(8)
 		}
 		usedShort := map[string]bool{}
 		usedName := map[string]bool{}
